@@ -32,7 +32,7 @@ ASSUMPTIONS = [
     "tuple labels of the grouped axis are compared element-wise only when all member axes are of one kind (NumPy coerces mixed tuples)",
 ]
 MANDATORY = ["flatten:subset", "flatten:noncontiguous", "flatten:reordered", "flatten:insert", "flatten:set", "flatten:reverse", "flatten:all",
-             "unflatten", "reshape", "reshape:newdim", "reshape:drop-singleton", "reshape:transpose=False", "tuple-reduction", "ndim:4", "square"]
+             "unflatten", "reshape", "reshape:newdim", "reshape:drop-singleton", "reshape:transpose=False", "unflatten:after-indexing-another-dimension", "tuple-reduction", "tuple-reduction:skipna-uneven-nan", "ndim:4", "square"]
 
 ATTRS = {"units": "m"}
 
@@ -189,6 +189,21 @@ def run_case(case):
                     check_grouped(back2, src, dims, labels, [[d] for d in dims], what, {"op": "unflatten"})
                     members_restored(back, what)
                     cl.add("unflatten")
+                    # a grouped array that went through an operation along ANOTHER dimension is still a grouped array: unflatten restores the members
+                    rest_ = [d for d in dims if d not in subset]
+                    if rest_ and insert in (None, 0):
+                        d0 = rest_[0]
+                        n0 = len(labels[dims.index(d0)])
+                        perm = list(range(n0))[::-1]
+                        sel = core.label_array(labels[dims.index(d0)])[perm]
+                        ref = lib(lambda: a.take_axis(perm, axis=d0, indexing="position"), what="take_axis on the plain array", sig={"op": "unflatten"})
+                        for sname, f_ in (("take_axis(reversed positions, axis=%s)" % d0, lambda g: g.take_axis(perm, axis=d0, indexing="position")),
+                                          ("[{%s: reversed labels}]" % d0, lambda g: g[{d0: sel}]), ("ix[{%s: slice(None, None, -1)}]" % d0, lambda g: g.take({d0: slice(None, None, -1)}, indexing="position"))):
+                            what2 = "flatten(%s, %s).%s.unflatten() dims=%s labels=%s" % (subset, kw, sname, dims, labels)
+                            g2 = lib(lambda: f_(a.flatten(tuple(subset), **kw)).unflatten(), what=what2, sig={"op": "unflatten"})
+                            check(sorted(g2.dims) == sorted(dims), "unflatten-dims", {"what": what2, "got": list(g2.dims), "expected_set": sorted(dims)}, {"op": "unflatten"})
+                            core.expect_equal_arrays(lib(lambda: g2.transpose(*dims), what=what2, sig={"op": "unflatten"}), ref, what2, sig={"op": "unflatten"})
+                        cl.add("unflatten:after-indexing-another-dimension")
                     sub.append((core.digest([spec, "flatten", subset, insert]), nontrivial))
                 if n < nd:
                     cl.add("flatten:subset")
@@ -323,6 +338,28 @@ def run_case(case):
                 f = {"mean": lambda v: sum(v) / float(len(v)), "sum": sum, "max": max}[red]
                 if nd > 2:
                     core.expect_array(x, rest, [labels[dims.index(d)] for d in rest], lambda c: f(fib[tuple(core.canon_label(c[d]) for d in rest)]), what, tol=True, sig=sig)
+            # the same with missing values spread unevenly over the group and skipna=True: ONE reduction over the whole group
+            # (the mean of the valid cells, not a mean of per-dimension means)
+            if src_vals.dtype.kind == "f" and src_vals.size >= 3:
+                nanv = np.array(src_vals, dtype=float, copy=True)
+                flat = nanv.reshape(-1)
+                for j in range(flat.size):
+                    if (j * 5 + r[0]) % 3 == 0 and j != flat.size - 1:
+                        flat[j] = np.nan
+                an = da.DimArray(nanv, axes=[ax.copy() for ax in a.axes])
+                for red in ("mean", "sum"):
+                    what = "%s(axis=%s, skipna=True) vs flatten(insert=0).%s(axis=0, skipna=True) dims=%s values=%s" % (red, pair, red, dims, core.jsonable(nanv))
+                    sig = {"op": "tuple-reduction-skipna"}
+                    x = lib(lambda: getattr(an, red)(axis=tuple(pair), skipna=True), what=what, sig=sig)
+                    y = lib(lambda: getattr(an.flatten(tuple(pair), insert=0), red)(axis=0, skipna=True), what=what, sig=sig)
+                    if nd == 2:
+                        check(core.same_scalar(x, y, tol=True), "tuple-reduction", {"what": what, "got": core.jsonable(x), "expected": core.jsonable(y)}, sig)
+                        valid = [v for v in nanv.reshape(-1).tolist() if v == v]
+                        exp = (sum(valid) / len(valid) if red == "mean" else sum(valid)) if valid else (float("nan") if red == "mean" else 0.0)
+                        check(core.same_scalar(x, exp, tol=True), "tuple-reduction", {"what": what, "got": core.jsonable(x), "expected": exp}, sig)
+                    else:
+                        core.expect_equal_arrays(x, y, what, tol=True, sig=sig)
+                    cl.add("tuple-reduction:skipna-uneven-nan")
             # order-sensitive along-axis functions over a tuple of dimensions: the group is formed in the listed order
             for fn in ("cumsum", "argmax", "argmin"):
                 what = "%s(axis=%s) vs flatten(%s, insert=0).%s(axis=0) dims=%s" % (fn, pair, pair, fn, dims)
